@@ -22,6 +22,7 @@ mod coll_ops;
 mod txn_ops;
 mod shard_apply;
 mod recovery;
+mod repl_state;
 use std::panic;
 
 pub struct Found {
@@ -61,7 +62,7 @@ fn main() {
         "lattice" => lattice::search(&pid, &oid, seed),
         "resp_codec" => resp::search(&pid, &oid, seed),
         "routing" | "fanout" => routing::search(&pid, &oid, seed),
-        "digest" => digest::search(&pid, &oid, seed),
+        "digest" | "digest_state" => digest::search(&pid, &oid, seed),
         // wal_files = the multi-file half of the WAL (truncate_before, recover_all_entries, entries_after): same driver, rotator battery first
         "wal_codec" | "wal_files" => wal_codec::search(&pid, &oid, seed),
         "wal_rotator" => wal_rotator::search(&pid, &oid, seed),
@@ -73,13 +74,15 @@ fn main() {
         "ttl_ops" => ttl_ops::search(&pid, &oid, seed),
         "err_frame" => executor::search_err(&pid, &oid, seed),
         "conn" | "batch_collect" => conn::search(&pid, &oid, seed),
+        "conn_txn" => conn::search_txn(&pid, &oid, seed),
         "shard_actor" => shard_actor::search(&pid, &oid, seed),
         "sync_keys" => sync_keys::search(&pid, &oid, seed),
         "sds_codec" => sds_codec::search(&pid, &oid, seed),
         "coll_ops" => coll_ops::search(&pid, &oid, seed),
         "txn_ops" => txn_ops::search(&pid, &oid, seed),
         "shard_apply" => shard_apply::search(&pid, &oid, seed),
-        "recovery_wal" | "recovered_apply" => recovery::search(&pid, &oid, seed),
+        "repl_state" => repl_state::search(&pid, &oid, seed),
+        "recovery_wal" | "recovered_apply" | "recover_segments" => recovery::search(&pid, &oid, seed),
         _ => None,
     };
     match res {
